@@ -422,7 +422,7 @@ def check(spec):
     M3 = _qmatrix(op, order)
     if not _close(M3, R):
         raise Viol("map_wires-mutated-input", f"expr={e} map={spec['map']}", sig=sig, features=feats)
-    return Result(acc["depth"] >= 2 and len(acc["ctors"]) >= 2, labels=labels)
+    return Result(acc["depth"] >= 2 and len(acc["ctors"]) >= 2, labels=labels + zoo_extra.coverage_labels())
 
 
 def selftest():
